@@ -78,6 +78,26 @@ func accWidth(i *Instruction) int {
 		return 4
 	case OpcodeStore:
 		return int(i.u1 >> 35)
+	case OpcodeLoadSplat:
+		switch VecLane(i.u2) {
+		case VecLaneI8x16:
+			return 1
+		case VecLaneI16x8:
+			return 2
+		case VecLaneI32x4:
+			return 4
+		case VecLaneI64x2:
+			return 8
+		}
+		return 1 << 20
+	case OpcodeVZeroExtLoad:
+		switch Type(i.u2) {
+		case TypeI32, TypeF32:
+			return 4
+		case TypeI64, TypeF64:
+			return 8
+		}
+		return 1 << 20
 	}
 	return 0
 }
@@ -105,6 +125,7 @@ func b2g(b bool) int {
 //@   ensures[value-ids-are-fresh] verif_ghost_map_old("M:uext32", uint64(raw.rValue)) == 0 && verif_ghost_map_old("M:isLd", uint64(raw.rValue)) == 0 && verif_ghost_map_old("M:isConst", uint64(raw.rValue)) == 0
 //@   ensures[uext-map] verif_ghost_map_upd("M:uext32", uint64(raw.rValue), isUExt32(raw), 1) && verif_ghost_map_upd("M:uextArg", uint64(raw.rValue), isUExt32(raw), uint64(raw.v))
 //@   ensures[last] gr("lastOp") == int(raw.opcode) && gr("lastV") == int(raw.v) && gr("lastV2") == int(raw.v2) && gr("lastV3") == int(raw.v3) && gr("lastU1") == int(raw.u1) && gr("lastU2") == int(raw.u2) && gr("lastRet") == int(raw.rValue) && gr("lastTyp") == int(raw.typ)
+//@   ensures[extractlane-result-type] raw.opcode == OpcodeExtractlane ==> Type(raw.rValue>>60) == raw.typ
 //@   ensures[access] (accWidth(raw) != 0 ==> gr("accW") == accWidth(raw) && gr("accOff") == int(uint32(raw.u1))) && (accWidth(raw) == 0 ==> gr("accW") == old(gr("accW")) && gr("accOff") == old(gr("accOff")))
 //@   ensures[const-map] verif_ghost_map_upd("M:isConst", uint64(raw.rValue), raw.opcode == OpcodeIconst, 1) && verif_ghost_map_upd("M:constVal", uint64(raw.rValue), raw.opcode == OpcodeIconst, raw.u1)
 //@   ensures[exits-by-code] verif_ghost_map_upd("M:exN", raw.u1, isExitIf(raw), verif_ghost_map_old("M:exN", raw.u1)+1) && verif_ghost_map_upd("M:exViaCmp", raw.u1, isExitIf(raw), uint64(old(b2g(int(raw.v2) == gr("icmpRet"))))) && verif_ghost_map_upd("M:exC", raw.u1, isExitIf(raw), uint64(old(gr("icmpC")))) && verif_ghost_map_upd("M:exX", raw.u1, isExitIf(raw), uint64(old(gr("icmpX")))) && verif_ghost_map_upd("M:exY", raw.u1, isExitIf(raw), uint64(old(gr("icmpY"))))
